@@ -216,7 +216,7 @@ ANCESTORS = [None, None, None, "target", ".git", "x/target/y", "my.git", "target
 
 
 def run_case(a):
-    cli, idx, seed, mode = a
+    cli, idx, seed, mode = a[:4]
     rnd = random.Random(seed)
     files, truth, decoys, feats = gen_project(rnd, idx)
     # the exclusion of target/ and .git/ is about directories UNDER the project path: an ancestor directory of the project
@@ -291,6 +291,7 @@ def run_case(a):
             if os.path.isfile(vp):
                 os.unlink(vp)
                 truth2 = {k: v for k, v in truth.items() if v["file"] != victim}
+                res["truth_now"] = sorted(truth2)
                 g2 = proj.generate(cli, None, mode=mode, root=g.root, src_name=src_name, tag="c03", force=True)
                 res["regenerated"] = 1
                 if g2.run.rc == 0 and "commands.ts" in g2.output.mods and not g2.output.mods["commands.ts"].errors:
@@ -307,6 +308,28 @@ def run_case(a):
                 elif truth2 and g2.run.rc == 0:
                     pf = common.parse_fault(g2.output, ("commands.ts",)) if "commands.ts" in g2.output.mods else ("missing", "commands.ts missing")
                     res["viol"].append(("C03 commands.ts-does-not-parse after-regeneration-into-the-same-directory " + pf[0], pf[1]))
+        if not res["viol"] and idx % 5 == 1 and len(a) > 4 and not anc:
+            # the build script's entry point, run twice on the unchanged project (cargo re-runs build scripts whenever it likes): after
+            # each run every command has its wrapper
+            import os
+            from .. import tsmod
+            proj.write_tauri_conf(g.root, "src", "out_build", mode, {})
+            for k_ in range(2):
+                rb, _ = proj.build_generate(a[4], g.root, hash_seed=seed % 211 + k_)
+                res["build_script_runs"] = res.get("build_script_runs", 0) + 1
+                if rb.timed_out or rb.rc != 0:
+                    break
+                ob = tsmod.Output(os.path.join(g.root, "out_build"))
+                invb = set()
+                if "commands.ts" in ob.mods and not ob.mods["commands.ts"].errors:
+                    for fname, lst in ob.commands().items():
+                        for c in lst:
+                            invb.add(c["invoke_name"])
+                lost = sorted(nm for nm in res.get("truth_now", truth) if nm not in invb)
+                if lost:
+                    res["viol"].append(("C03 missing-wrapper entry=build-script run=%d" % (k_ + 1), "after run %d of the build script on the unchanged project, commands %s have no wrapper (commands.ts %s)" % (
+                        k_ + 1, lost[:5], "present" if "commands.ts" in ob.mods else "absent")))
+                    break
         if res["viol"]:
             res["witness"] = proj.witness_of(files, mode, extra={"expected_commands": sorted(truth), "decoys": decoys})
         return res
@@ -319,7 +342,8 @@ def run(tier):
     cli = common.build_cli()
     n = 400 if tier == "quick" else 40000
     base = common.seed() * 1000003
-    jobs = [(cli, i, base + i, "none" if i % 2 == 0 else "zod") for i in range(n)]
+    drv = common.build_driver()
+    jobs = [(cli, i, base + i, "none" if i % 2 == 0 else "zod", drv) for i in range(n)]
     res = common.pmap(run_case, jobs, chunksize=8)
     attrs = set()
     for (job, r) in zip(jobs, res):
